@@ -24,14 +24,23 @@ func isSyncProposeCall(in ssa.Instruction) bool {
 	return strings.HasSuffix(CalleeName(c), ".SyncPropose")
 }
 
-// proposeCallIn: call that (possibly through a retry helper taking a closure) proposes.
-func isProposeStep(in ssa.Instruction) bool {
-	if isSyncProposeCall(in) {
-		return true
-	}
+// stepFuncs: the module functions a call may run synchronously as part of its own step: closures
+// passed as arguments (retry helpers), the statically resolved module callee, and theirs (bounded).
+func stepFuncs(in ssa.Instruction, depth int, seen map[*ssa.Function]bool) []*ssa.Function {
 	c := plainCall(in)
-	if c == nil {
-		return false
+	if c == nil || depth > 3 {
+		return nil
+	}
+	var out []*ssa.Function
+	add := func(f *ssa.Function) {
+		if f == nil || f.Blocks == nil || seen[f] || !inModule(f) {
+			return
+		}
+		seen[f] = true
+		out = append(out, f)
+		eachInstr(f, func(x ssa.Instruction) {
+			out = append(out, stepFuncs(x, depth+1, seen)...)
+		})
 	}
 	for _, a := range c.Args {
 		v := a
@@ -40,16 +49,31 @@ func isProposeStep(in ssa.Instruction) bool {
 		}
 		if mc, ok := v.(*ssa.MakeClosure); ok {
 			if f, ok := mc.Fn.(*ssa.Function); ok {
-				found := false
-				eachInstr(f, func(x ssa.Instruction) {
-					if isSyncProposeCall(x) {
-						found = true
-					}
-				})
-				if found {
-					return true
-				}
+				add(f)
 			}
+		}
+	}
+	if cal := StaticCallee(c); cal != nil && !isGenerated(cal) {
+		add(cal)
+	}
+	return out
+}
+
+// isProposeStep: a call that proposes - SyncPropose itself, a retry helper given a closure that
+// proposes, or a module helper that does either.
+func isProposeStep(in ssa.Instruction) bool {
+	if isSyncProposeCall(in) {
+		return true
+	}
+	for _, f := range stepFuncs(in, 0, map[*ssa.Function]bool{}) {
+		found := false
+		eachInstr(f, func(x ssa.Instruction) {
+			if isSyncProposeCall(x) {
+				found = true
+			}
+		})
+		if found {
+			return true
 		}
 	}
 	return false
@@ -208,6 +232,15 @@ func c07Loader(w *World, r *Report, id, slug string) {
 			ob.Violate("pending-batch-not-proposed", instrPos(p.Hit), "the loader can return successfully with appended records that were never proposed", w.PathString(p)...)
 		}
 	}
+	// the proposed records leave the batch before the next record is appended
+	eachInstr(fn, func(in ssa.Instruction) {
+		if in != marshal {
+			return
+		}
+		if p := (&Walk{Barrier: isClear, Target: isKeep}).Find(after(in)); p != nil {
+			ob.Violate("proposed-records-kept", instrPos(p.Hit), "after a batch was marshalled for its proposal the next record can be appended to a batch that still holds the records already proposed", w.PathString(p)...)
+		}
+	})
 	// marshalled bytes are what is proposed, and a failed proposal returns
 	var retry ssa.Instruction
 	eachInstr(fn, func(in ssa.Instruction) {
@@ -220,13 +253,25 @@ func c07Loader(w *World, r *Report, id, slug string) {
 		return
 	}
 	ob.Site(retry.Pos(), "proposal step")
-	for _, f := range withClosures(fn) {
+	pfuncs := append([]*ssa.Function{fn}, stepFuncs(retry, 0, map[*ssa.Function]bool{})...)
+	pctx := &ExprCtx{Alias: map[ssa.Value]string{rec: "rec", batch: "batch"}}
+	for _, f := range pfuncs {
+		if f.Parent() == nil && f != fn {
+			// a helper the loader calls: its parameters read as the loader's arguments
+			if rc := plainCall(retry); rc != nil && StaticCallee(rc) == f && len(rc.Args) == len(f.Params) {
+				for i, p := range f.Params {
+					pctx.Alias[p] = ctx.Expr(rc.Args[i])
+				}
+			}
+		}
+	}
+	for _, f := range pfuncs {
 		eachInstr(f, func(in ssa.Instruction) {
 			if !isSyncProposeCall(in) {
 				return
 			}
 			c := callOf(in)
-			e := ctx.Expr(c.Args[len(c.Args)-1])
+			e := pctx.Expr(c.Args[len(c.Args)-1])
 			if !strings.Contains(e, "MarshalVT(batch)#0") {
 				ob.Violate("proposal-payload", in.Pos(), "the proposal sends `"+e+"`, not the marshalled batch")
 			}
